@@ -37,6 +37,10 @@ impl Ctx {
             tags.push("nt".into());
         }
         writeln!(self.out, "{}\t{}\t{}", c.line, c.impl_out, tags.join(",")).unwrap();
+        if util::HANGS.load(std::sync::atomic::Ordering::SeqCst) > 0 {
+            // after a case that did not return, the process may be stopped by the watchdog: keep the rows
+            self.out.flush().unwrap();
+        }
     }
     pub fn note(&mut self, k: &str, v: u64) {
         *self.notes.entry(k.to_string()).or_insert(0) += v;
